@@ -323,6 +323,14 @@ def mon_c16(case):
             return step, "an operation on the clone changed the original (or vice versa)"
         if not is_panic(out, snap):
             prev = snap
+    # a clone is the original also in what it does next: a RawLRU built with an eviction callback keeps calling it
+    # (the callback rule of C15, on the calls made after the first clone)
+    if case["kind"] == 0:
+        first = next((i for i, l in enumerate(case["lines"], 1) if l[0] and l[0][0] == 25), None)
+        if first is not None:
+            r = mon_c15(case)
+            if r is not None and r[0] > first:
+                return r[0], "after the clone replaced the original: " + r[1]
     return None
 
 
@@ -1367,6 +1375,17 @@ def mon_c03(case):
     kind = case["kind"]
     if kind in HLAYOUT:
         return mon_c03_slru(case)
+    if kind == 8:
+        # conversions (FromIterator, From<..>): the list they build is audited through the hook
+        for step, (op, out, cb, acct, snap) in enumerate(case["lines"], 1):
+            if op and op[0] == 142 and out == [-6]:
+                return step, (f"the RawLRU built by conversion {op[1]} from the pairs {op[2:]} is not a well-formed chain that agrees "
+                              "with its index (walks from both ends, one index entry per node keyed by the node's own key)")
+            if op and op[0] == 142 and is_panic(out, snap):
+                return step, f"conversion {op[1]} from the pairs {op[2:]} panicked inside the library"
+            if op and op[0] == 99 and len(out) >= 6 and out[5]:
+                return step, "freed memory was written to (poison damaged)"
+        return None
     if kind not in LAYOUT and kind != 9:
         return None
     prev = None
@@ -1620,6 +1639,16 @@ def mon_c04(case):
     tracked keys and values still alive are exactly those of the retained entries; purge retains nothing;
     dropping the cache releases every retained key and value once, every heap block, and damages no freed memory"""
     kind = case["kind"]
+    if kind == 8:
+        # constructors, builders and conversions: every cache they build is dropped inside the call; at the end of the
+        # history no block allocated by them may be left and no freed memory may have been written
+        for step, (op, out, cb, acct, snap) in enumerate(case["lines"], 1):
+            if op and op[0] == 99 and len(out) >= 6:
+                if out[4]:
+                    return step, f"{out[4]} heap blocks allocated by the constructor / conversion calls of this history were never freed"
+                if out[5]:
+                    return step, "freed memory was written to (poison damaged)"
+        return None
     if kind not in LAYOUT:
         return None
     retained = 0
